@@ -163,4 +163,11 @@ def matmulDenseDiaJ (j : Json) : Except String Json := do
   pure <| Json.mkObj [("data", Json.arr ((List.range (out.rows * out.cols)).map fun p => ciJ (out.data p)).toArray),
     ("abs", absJ out.rows out.cols out.abs), ("fortran", out.fortran)]
 
+def addDiaJ (j : Json) : Except String Json := do
+  let a ← diaOf j "a"
+  let b ← diaOf j "b"
+  let s ← ciOf (← j.getObjVal? "scale")
+  let out := addDia a b s
+  pure <| Json.mkObj [("abs", absJ out.rows out.cols out.abs), ("offsets", Json.arr (out.diags.map fun p => (p.1 : Json)).toArray)]
+
 end Qv.Drv.C01
